@@ -193,3 +193,55 @@ def run_confine_case(prog, params):
             res.inconclusive += inc
             res.evals += 1
     return res
+
+
+def run_phys_kernel_case(prog, params):
+    """PhysicalFS::get_path(q) for symbolic canonical q resolves (lexically, as the OS does without
+    symlinks) to root + q: never outside the root directory"""
+    from mirsym import osm as osmodel
+    res = CaseResult()
+    res.states = 1
+    lq = params['lq']
+
+    def h(ex):
+        out = []
+        w = World(ex)
+        q = S([ex.fresh('q', 8) for _ in range(lq)])
+        if lq:
+            ex.assume(c06.alphabet(ex, q)); ex.assume(c06.canonical(q))
+        fs = w.F('PhysicalFS::new', [S(b'/jail/root')])
+        o = w.guard(lambda: w.F('PhysicalFS::get_path', [ValRef(fs), q]))
+
+        def fnd(key, detail, model=None):
+            m = model or ex.any_model()
+            qb = c06.model_bytes(m, q)
+            f = Finding('C07', key, detail + ' [q=%r]' % qb,
+                        ['fs R phys', 'join t R %s' % hx(qb), 'create_dir_all t', 'exists t', 'read_dir R', 'walk_dir R'], None)
+            return f
+        if not o.ok:
+            out.append(fnd('phys_kernel|get_path_%s' % o.tag, 'PhysicalFS::get_path fails/panics: %r' % (o,)))
+            return out
+        om = osmodel.osm(ex)
+        got = om.comps(o.value)
+        want = (tuple(b'jail'), tuple(b'root')) + om.comps(q)
+        same = len(got) == len(want) and all(len(a) == len(b) for a, b in zip(got, want))
+        cond = zand([seq_eq(a, b) for a, b in zip(got, want)]) if same else False
+        m = ex.check(cond, 'get_path stays below the root')
+        if m is not None:
+            out.append(fnd('phys_kernel|path_leaves_root', 'the OS path computed for a canonical path is not root + path', m if cond is not False else None))
+        if not res.samples:
+            mdl = ex.any_model()
+            res.samples.append({'q': repr(c06.model_bytes(mdl, q)), 'os_path': repr(c06.model_bytes(mdl, models_as_S(o.value)))})
+        return out
+    fs, inc = explore(prog, h, res.stats)
+    for f in fs:
+        c06.concretize_expected(prog, f)
+    res.findings += fs
+    res.inconclusive += inc
+    res.evals = res.stats.paths
+    return res
+
+
+def models_as_S(v):
+    from mirsym.models import as_S
+    return as_S(v)
